@@ -410,6 +410,37 @@ func (c *ctx) faults(p pre, o Op, o2 *Op) {
 			c.sec.Extra["single_faults_other_secret_first"]++
 			c.followUpOrder(p, []Op{o}, d3, m3, dir, rdir, faultDesc, replay, []Op{{Kind: "put", Name: "fresh", Value: "f"}, {Kind: "put", Name: "a", Value: "after-fault"}, {Kind: "put", Name: "a", Value: ""}})
 		}
+		// the fault once more, and then the caller simply tries the very same call again on a healthy disk:
+		// it must now succeed and be on disk (a retry is the most likely call to follow a failed one)
+		if o.Kind != "create" {
+			m5 := build(dir, p)
+			d5, err := db.Open(filepath.Join(dir, "db"), kek, hx.Discard())
+			if err != nil {
+				panic(err)
+			}
+			r5 := fsx.NewRecorder(dir)
+			r5.Baseline()
+			r5.FaultAt, r5.FaultShort = pt.at, pt.short
+			vos.SetHook(r5)
+			_, e5 := apply(d5, o)
+			vos.SetHook(nil)
+			if r5.Fired && e5 != nil {
+				c.sec.Evaluations++
+				c.sec.Extra["retries_of_the_failed_call"]++
+				if _, err := apply(d5, o); err != nil {
+					c.fail("retry-after-fault-fails", p, []Op{o, o}, fmt.Sprintf("%s: the same call again, without a fault, fails: %v", faultDesc, err), replay)
+				} else {
+					applyModel(m5, o)
+					if k := hx.DumpKey(d5); k != m5.Key() {
+						c.fail("retry-after-fault-state", p, []Op{o, o}, fmt.Sprintf("%s: after the same call again (acknowledged) the running database holds %s, model %s", faultDesc, k, m5.Key()), replay)
+					}
+					copyDir(dir, rdir)
+					if got, err := recoverDump(rdir); err != nil || got != m5.Key() {
+						c.fail("retry-after-fault-not-on-disk", p, []Op{o, o}, fmt.Sprintf("%s: the same call again was acknowledged, but after a restart the file opens as %q err=%v, model %s", faultDesc, got, err, m5.Key()), replay)
+					}
+				}
+			}
+		}
 		// and once more with a cause that outlasts the failing step: from the faulted call on, every
 		// file-system call of the operation fails, reads of the live file included; it ends when the call returns
 		if pt.short == 0 {
@@ -578,7 +609,7 @@ func TestCheck(t *testing.T) {
 		}
 	}
 	fault := rep.Add(&report.Section{Name: "injected-faults", Engine: "fsx", Exhaustive: true, Extra: map[string]int64{},
-		Rule: "for each operation: an injected error at every mutating file-system call (writes also after a partial write), then fault pairs across two consecutive operations; after each: error reported, served state, write generation and file equal the pre-call state, each single fault also as a lasting one (every later file-system call of the operation fails too, reads included); later calls (in two orders: the failed call's own secret first, another secret first) and a restart after each match the model; non-trivial = runs in which the fault fired and the call failed"})
+		Rule: "for each operation: an injected error at every mutating file-system call (writes also after a partial write), then fault pairs across two consecutive operations; after each: error reported, served state, write generation and file equal the pre-call state, after each single fault the same call is retried on a healthy disk (it must succeed and be on disk after a restart); each single fault also as a lasting one (every later file-system call of the operation fails too, reads included); later calls (in two orders: the failed call's own secret first, another secret first) and a restart after each match the model; non-trivial = runs in which the fault fired and the call failed"})
 	c = &ctx{rep: rep, sec: fault, base: base}
 	c.faults(pre{name: "no-file"}, Op{Kind: "create"}, nil)
 	for _, p := range pres {
